@@ -23,7 +23,7 @@ def run(ctx):
         length = rng.choice([1, 1, 2, 3, 5, 8, 12, 20, 30])
         prog = CU.rand_program(rng, N, length)
         klass = rng.choice(['CliffordCircuit', 'Circuit'])
-        conf = rng.choice(['plain', 'plain', 'layers', 'compiled', 'compiled', 'gate', 'layer'])
+        conf = rng.choice(['plain', 'plain', 'layers', 'compiled', 'compiled', 'gate', 'layer', 'recompiled'])
         order = rng.choice(['bf', 'fb'])
         ctx.count('conf=' + conf); ctx.count('order=' + order); ctx.count('N=%d' % N)
         Ps = [G.rand_op(rng, N) for _ in range(4)] + G.id_map_ops(N)
@@ -49,8 +49,14 @@ def run(ctx):
                 cid += 1
                 a = 'c%d' % cid
                 ctx.drv.ask('circ %s new %d' % (a, N))
-                for d in prog:
+                kcut = rng.randrange(0, len(prog) + 1) if conf == 'recompiled' else len(prog)
+                for d in prog[:kcut]:
                     obj.take(CU.impl_gate(impl, d)); CU.model_take(ctx.drv, a, d)
+                if conf == 'recompiled':
+                    obj.compile(); ctx.drv.ask('circ %s compile' % a)
+                    for d in prog[kcut:]:
+                        obj.take(CU.impl_gate(impl, d)); CU.model_take(ctx.drv, a, d)
+                    obj.compile(); ctx.drv.ask('circ %s compile' % a)
                 if conf == 'layers':
                     for layer in obj.layers_forward():
                         layer.compile(N)
@@ -78,14 +84,14 @@ def run(ctx):
             if impl.ops_of(st) != [(x[0], x[1] % 4) for x in rows] or int(st.r) != r:
                 ctx.fail('%s.backward' % type(obj).__name__, 'state (strings, phases, rank) not restored (configuration %s, order %s)' % (conf, order),
                          dict(rep, rows=rows, r=r, got=impl.ops_of(st), got_r=int(st.r)))
-            if conf in ('plain', 'compiled'):
+            if conf in ('plain', 'compiled', 'recompiled'):
                 d1, d2 = ('fwd', 'bwd') if order == 'bf' else ('bwd', 'fwd')
                 ans = ctx.drv.ask('circ %s %s L 0 %s _ - none' % (a, d1, H.erows_ops(Ps)))
                 ctx.count('corr:' + d1)
                 mv = H.drows_ops(ans.split(' ')[2]) if ans.startswith('ok ') else ans
                 if mv != mid:
                     ctx.mismatch(d1, 'circ %s (program of %d gates, %s)' % (d1, len(prog), conf), str(mv)[:600], str(mid)[:600], dict(rep=rep))
-                if conf == 'compiled':
+                if conf in ('compiled', 'recompiled'):
                     fm, bm = impl.ops_of(obj.forward_map), impl.ops_of(obj.backward_map)
                     ans = ctx.drv.ask('circ %s maps' % a).split(' ')
                     ctx.count('corr:compile')
